@@ -637,6 +637,89 @@ def gen_ref_compress():
     return "\n".join(o) + "\n"
 
 
+def gen_c_portable():
+    """c/blake3_portable.c: g, round_fn, compress_pre, compress_in_place, compress_xof.
+    Mapping: `load32(block + 4 * i)` -> word i of the block (the block is passed as 16 little-endian words; load32
+    itself assembles 4 bytes little-endian), `store32(&out[i * 4], e)` -> word i of the output := e,
+    `&block_words[0]` -> block_words, unsigned `+` on uint32_t -> wrapping `+`."""
+    A = "G2-c-portable"
+    F = "c/blake3_portable.c"
+    o = ["/- GENERATED by gen/extract.py from /repo/c/blake3_portable.c, c/blake3_impl.h -- do not edit -/",
+         "import B3.Prim", "import B3.Gen.Consts", "namespace B3.Gen.C", ""]
+
+    def word_index(arg):
+        # block + 4 * i   |   &out[i * 4]
+        if arg[0] == "bin" and arg[1] == "+" and arg[2][0] == "var":
+            v = const_eval(arg[3])
+            if v is not None and v % 4 == 0:
+                return arg[2][1], v // 4
+        if arg[0] == "index" and arg[1][0] == "var":
+            v = const_eval(arg[2])
+            if v is not None and v % 4 == 0:
+                return arg[1][1], v // 4
+        raise ValueError(f"unsupported byte address {arg}")
+
+    def call_load32(args, env):
+        name, i = word_index(args[0])
+        return f"{name}[{i}]"
+
+    env = Env(calls={
+        "rotr32": lambda a, e: f"(rotr {emit(a[0], e)} {emit(a[1], e)})",
+        "load32": call_load32,
+        "counter_low": lambda a, e: f"(counter_low {emit(a[0], e)})",
+        "counter_high": lambda a, e: f"(counter_high {emit(a[0], e)})",
+    })
+    for n in ["counter_low", "counter_high"]:
+        params, body = find_fn(A, "c/blake3_impl.h", rf"INLINE\s+uint32_t\s+{n}\s*\(")
+        body = re.sub(r"^\s*return\s+", "", body.strip()).rstrip(";")
+        lines, final = translate_block(A, body, env, {})
+        o.append(lean_def(n, "(counter : UInt64)", "UInt32", lines, final))
+    params, body = find_fn(A, F, r"INLINE\s+void\s+g\s*\(")
+    names = re.findall(r"(\w+)\s*(?:,|$)", re.sub(r"\s+", " ", params))
+    if names != ["state", "a", "b", "c", "d", "x", "y"]:
+        raise TranslationBroken(A, f"g: unexpected parameters {names}")
+    lines, final = translate_block(A, body, env, {})
+    o.append(lean_def("g", G_PARAMS, "St", lines, final or "state"))
+    params, body = find_fn(A, F, r"INLINE\s+void\s+round_fn\s*\(")
+    lines, final = translate_block(A, body, env, {"g": ("g", 0)})
+    o.append(lean_def("round_fn", "(state msg : St) (round : Fin 7)", "St", lines, final or "state"))
+    # compress_pre(state, cv, block, block_len, counter, flags)
+    params, body = find_fn(A, F, r"INLINE\s+void\s+compress_pre\s*\(")
+    body = body.replace("&block_words[0]", "block_words")
+    lines, final = translate_block(A, body, env, {"round_fn": ("round_fn", 0)})
+    CP = "(state : St) (cv : CV) (block : St) (block_len : UInt8) (counter : UInt64) (flags : UInt8)"
+    o.append(lean_def("compress_pre", CP, "St", lines, final or "state"))
+    CA = "(cv : CV) (block : St) (block_len : UInt8) (counter : UInt64) (flags : UInt8)"
+    params, body = find_fn(A, F, r"void\s+blake3_compress_in_place_portable\s*\(")
+    lines, final = translate_block(A, body, env, {"compress_pre": ("compress_pre", 0)})
+    o.append(lean_def("compress_in_place", CA, "CV", lines, final or "cv"))
+    params, body = find_fn(A, F, r"void\s+blake3_compress_xof_portable\s*\(")
+    # store32(&out[i * 4], e)  ->  out[i] = e   (out as 16 words)
+    def repl_store(m):
+        inner = m.group(1)
+        depth, k = 0, None
+        for j, ch in enumerate(inner):
+            if ch in "([":
+                depth += 1
+            elif ch in ")]":
+                depth -= 1
+            elif ch == "," and depth == 0:
+                k = j
+                break
+        addr, val = inner[:k].strip(), inner[k + 1:].strip()
+        name, i = word_index(parse_expr(addr))
+        return f"{name}[{i}] = {val};"
+    try:
+        body = re.sub(r"store32\((.*?)\);", repl_store, body, flags=re.S)
+    except Exception as ex:
+        raise TranslationBroken(A, f"compress_xof: {ex}")
+    body = "uint32_t out[16];" + body
+    lines, final = translate_block(A, body, env, {"compress_pre": ("compress_pre", 0)})
+    o.append(lean_def("compress_xof", CA, "St", lines, final or "out"))
+    o.append("end B3.Gen.C")
+    return "\n".join(o) + "\n"
+
+
 # ------------------------------------------------------------------------------------------------
 # G3: arithmetic helpers, translated into checked arithmetic in the monad `R`
 
@@ -953,6 +1036,7 @@ ARTEFACTS = [
     ("RsPortable.lean", "G2-rs-portable", gen_rs_portable),
     ("Arith.lean", "G3-arith", gen_arith),
     ("RefCompress.lean", "G2-ref-compress", gen_ref_compress),
+    ("CPortable.lean", "G2-c-portable", gen_c_portable),
     ("Vectors.lean", "G5-vectors", gen_vectors),
     ("Listings.lean", "G4-listings", gen_listings),
 ]
